@@ -43,6 +43,8 @@ def check_C18(ctx, unit, nbits):
     BS = "frg::bitset"
     ctx.rule("B1.const-subscript", "array<T,N>: every constant subscript of the storage is < N (== N only as an address)", 4)
     check_const_subscripts(ctx, unit, ["frg::array"], rule="B1.const-subscript")
+    # ... and of the bitset's word buffer, in every instantiated size (N / 64, buffer_size - 1 are constants there)
+    check_const_subscripts(ctx, unit, [BS], rule="B1.const-subscript")
     ctx.rule("I.bitset-ctor", "every bitset constructor writes every word of the buffer, and one that stores a caller value "
              "masks the bits at and beyond N afterwards", 2)
     ctx.rule("I.mask-after-dirty-write", "every bitset member that writes a word with ~x, x << k or a caller value calls "
